@@ -111,7 +111,7 @@ class RunStream(C.Stream):
     file_backends = ("json",)
     savings = ("at_each_failed_test", "at_each_test", "at_each_log", "at_each_suite")
     p_listeners = 0.0             # probability of further listeners of ONE class with per-instance handler sets (observe.SubsetSession)
-    p_base_fault = 0.0            # share of the backend faults that are BaseExceptions `except Exception` does not catch
+    p_base_fault = 0.0            # share of the backend faults that are BaseExceptions and no Exceptions (recorded like any other since fix D42)
     quick_cases = 60
     thorough_cases = 8000
     quick_seconds = 40
@@ -199,11 +199,7 @@ class RunStream(C.Stream):
         ires = [r[0] if r[0] != "none" else None for r in obs["results"]]
         if mres != ires:
             return f"task results differ: model {mres} impl {ires}"
-        # a handler left by a BaseException `except Exception` does not catch (finding D42): the event-handling thread is
-        # dead, the report writer saw a prefix of the fired events only — the returned verdict and the report are those of
-        # that prefix (the oracle speaks about the run carrying on); the trace itself is replayed like any other
-        dead = any(r[0] == "backend-raise" and len(r) > 2 and r[2] in O.BASE_FAULT_CLASSES for r in obs["trace"])
-        if "returned" in out and ans["any_failed"] == out["returned"] and not dead:
+        if "returned" in out and ans["any_failed"] == out["returned"]:
             return f"run returned {out['returned']} but the model's failure flag is {ans['any_failed']}"
         # the two statements of the C07 grammar (Lean acceptor, Python recogniser) must agree on the fired stream
         fired = [r[2] for r in obs["trace"] if r[0] == "fire"]
@@ -214,7 +210,7 @@ class RunStream(C.Stream):
         if py_ok != lean_ok:
             return f"the two statements of the stream grammar disagree on the fired stream: Lean {lean_ok}, Python {py_ok}"
         rep = canon_report_for_model(obs.get("report"))
-        if rep is not None and "returned" in out and not dead:
+        if rep is not None and "returned" in out:
             m = R.unwire(ans["report"])
             if "writer_error" in m:
                 return "writer model error: " + m["writer_error"]
